@@ -20,12 +20,14 @@ import FqModel.Gen.SerialTables
      (b) F_prefix_fails   k < |encode x|  →  decode (take k (encode x)) = err      (truncation is an error)
      (c) F_trailing       the value is the one decoded without trailing data; the remainder is exactly it
      (d) F_all_values     every in-domain v has a valid wire tree (so (a)–(c) are not vacuous for any v)
-  proved: msgpack (a)–(d), bencode (a)–(d);
+  proved: msgpack and bencode (a)–(d) for all values whose text strings do not start with U+FEFF
+          (`*_partial`: `d.FieldUTF8` strips a leading byte order mark — `utf8_bom_stripped_witness`,
+          `msgpack_full_roundtrip_false`; known finding utf8-bom-stripped); (b) and (c) need no `_partial`;
           cbor: (a)–(c) are FALSE of the code as it is for wire trees with an indefinite-length byte/text
           string (`cbor_indef_string_break_witness`, `cbor_full_roundtrip_false`; known finding
           cbor-indef-string-break) — proved are `cbor_*_partial` (all wire trees without such strings, which
           by `cbor_all_values` still covers every in-domain value) and the full (a)–(c) for the one-line
-          repair (`cborFixed_*`).
+          repair (`cborFixed_*`; same U+FEFF restriction).
   NOT modelled / not proved (monitored by the harness only): bson, asn1_ber and the text formats
   (json, jsonl, yaml, toml, xml, csv); msgpack ext types and cbor semantic tags (their torepr is not a
   JSON-like value).
@@ -39,10 +41,36 @@ open FqModel.Serial Proofs.C16
 section msgpack
 open FqModel.Serial.Msgpack
 
+/-- KNOWN FINDING `utf8-bom-stripped`, pinned by evaluation: `d.FieldUTF8` drops a leading byte order mark, so
+    the string "\uFEFFa" comes back as "a" (msgpack fixstr, cbor text, bencode string alike; a msgpack bin
+    keeps it) -/
+theorem utf8_bom_stripped_witness :
+    Msgpack.decode [0xa4, 0xef, 0xbb, 0xbf, 0x61] = .ok (.str [0x61], []) ∧
+    Cbor.decode [0x64, 0xef, 0xbb, 0xbf, 0x61] = .ok (.str [0x61], []) ∧
+    Bencode.decode [0x34, 0x3a, 0xef, 0xbb, 0xbf, 0x61] = .ok (.str [0x61], []) ∧
+    Msgpack.decode [0xc4, 0x04, 0xef, 0xbb, 0xbf, 0x61] = .ok (.str [0xef, 0xbb, 0xbf, 0x61], []) :=
+  ⟨resEq_sound _ _ (by decide +kernel), resEq_sound _ _ (by decide +kernel), resEq_sound _ _ (by decide +kernel),
+   resEq_sound _ _ (by decide +kernel)⟩
+
+/-- the full round-trip statement (all Unicode strings) is therefore FALSE of the code as it is -/
+theorem msgpack_full_roundtrip_false :
+    ¬ (∀ s : Bytes, s.length ≤ 31 → decode (encode (.str .fix s)) = .ok (.str s, [])) := by
+  intro h
+  have h1 := h [0xef, 0xbb, 0xbf, 0x61] (by decide)
+  have h2 : decode (encode (.str .fix [0xef, 0xbb, 0xbf, 0x61])) = .ok (.str [0x61], []) :=
+    resEq_sound _ _ (by decide +kernel)
+  rw [h2] at h1
+  have h3 := congrArg (fun r => match r with | Res.ok (V.str s, _) => s.length | _ => 0) h1
+  simp at h3
+
 /-- round trip, for EVERY wire tree `x` (a value with a wire form chosen at every node) and every trailing
     data: `fq -d msgpack torepr` of the encoding returns the value (byte strings as strings) and leaves
-    exactly the trailing bytes. -/
-theorem msgpack_roundtrip (x : W) (h : valid x = true) (rest : Bytes) :
+    exactly the trailing bytes.
+    MISSING for the full statement: `valid` requires text strings to be fixed points of `d.FieldUTF8`
+    (`validUTF8`), i.e. well-formed UTF-8 that does NOT start with U+FEFF — strings with a leading byte order
+    mark do not round-trip (`utf8_bom_stripped_witness`, `msgpack_full_roundtrip_false`; known finding
+    utf8-bom-stripped). -/
+theorem msgpack_roundtrip_partial (x : W) (h : valid x = true) (rest : Bytes) :
     decode (encode x ++ rest) = .ok (norm (value x), rest) := by
   unfold decode
   rw [(Proofs.C16.Msgpack.main ((encode x ++ rest).length + 1)).1 x h (by simp; omega) rest]
@@ -60,19 +88,19 @@ theorem msgpack_prefix_fails (x : W) (h : valid x = true) (k : Nat) (hk : k < (e
     the remainder is exactly the trailing data (which fq then shows as a gap field, C04) -/
 theorem msgpack_trailing (x : W) (h : valid x = true) (rest : Bytes) :
     ∃ v, decode (encode x) = .ok (v, []) ∧ decode (encode x ++ rest) = .ok (v, rest) := by
-  refine ⟨norm (value x), ?_, msgpack_roundtrip x h rest⟩
-  simpa using msgpack_roundtrip x h []
+  refine ⟨norm (value x), ?_, msgpack_roundtrip_partial x h rest⟩
+  simpa using msgpack_roundtrip_partial x h []
 
 /-- every in-domain value has a valid wire tree (the canonical smallest-form one), so the theorems above
     speak about every value -/
-theorem msgpack_all_values (v : V) (h : inDomain v = true) : valid (canon v) = true ∧ value (canon v) = v :=
+theorem msgpack_all_values_partial (v : V) (h : inDomain v = true) : valid (canon v) = true ∧ value (canon v) = v :=
   Proofs.C16.Msgpack.canon_ok v h
 
 /-- (a) for a value, in words of the property: decoding the (canonical) encoding of `v` gives `v` back -/
-theorem msgpack_roundtrip_value (v : V) (h : inDomain v = true) (rest : Bytes) :
+theorem msgpack_roundtrip_value_partial (v : V) (h : inDomain v = true) (rest : Bytes) :
     decode (encode (canon v) ++ rest) = .ok (norm v, rest) := by
-  have ⟨h1, h2⟩ := msgpack_all_values v h
-  rw [msgpack_roundtrip _ h1 rest, h2]
+  have ⟨h1, h2⟩ := msgpack_all_values_partial v h
+  rw [msgpack_roundtrip_partial _ h1 rest, h2]
 
 /-! non-vacuity: a valid wire tree that uses fix/8/16/32-bit forms, float32, bin, nested containers -/
 example : valid (.map .l16 [(.str .l8 [0x6b], .arr .fix [.int .i32 (-5), .int .u64 (2^64 - 1), .f32 0x3fc00000, .bin .l8 [0xff],
@@ -144,8 +172,10 @@ theorem cbor_trailing_partial (x : W) (h : valid x = true) (hn : noIndefStr x = 
   simpa using cbor_roundtrip_partial x h hn []
 
 /-- the FULL statement for the repaired decoder (break of an indefinite-length string consumed): every
-    wire tree — all argument widths, definite and indefinite lengths, arbitrary chunking, float16/32/64 -/
-theorem cborFixed_roundtrip (x : W) (h : valid x = true) (rest : Bytes) :
+    wire tree — all argument widths, definite and indefinite lengths, arbitrary chunking, float16/32/64
+    (its domain, like every `valid`, leaves out text strings that start with U+FEFF: known finding
+    utf8-bom-stripped is a second, independent defect) -/
+theorem cborFixed_roundtrip_partial (x : W) (h : valid x = true) (rest : Bytes) :
     decodeFixed (encode x ++ rest) = .ok (norm (value x), rest) := by
   unfold decodeFixed
   rw [(Proofs.C16.Cbor.main true ((encode x ++ rest).length + 1)).1 x h (Or.inl rfl) (by simp; omega) rest]
@@ -160,13 +190,13 @@ theorem cborFixed_prefix_fails (x : W) (h : valid x = true) (k : Nat) (hk : k < 
 
 /-- every in-domain value has a valid wire tree without indefinite-length strings, so the `_partial`
     theorems cover every VALUE (what they leave out are alternative chunked encodings of strings) -/
-theorem cbor_all_values (v : V) (h : inDomain v = true) :
+theorem cbor_all_values_partial (v : V) (h : inDomain v = true) :
     valid (canon v) = true ∧ value (canon v) = v ∧ noIndefStr (canon v) = true :=
   Proofs.C16.Cbor.canon_ok v h
 
-theorem cbor_roundtrip_value (v : V) (h : inDomain v = true) (rest : Bytes) :
+theorem cbor_roundtrip_value_partial (v : V) (h : inDomain v = true) (rest : Bytes) :
     decode (encode (canon v) ++ rest) = .ok (norm v, rest) := by
-  have ⟨h1, h2, h3⟩ := cbor_all_values v h
+  have ⟨h1, h2, h3⟩ := cbor_all_values_partial v h
   rw [cbor_roundtrip_partial _ h1 h3 rest, h2]
 
 /-! non-vacuity: indefinite array and map, all head widths, float16, chunked strings (for the repaired variant) -/
@@ -185,7 +215,8 @@ end cbor
 section bencode
 open FqModel.Serial.Bencode
 
-theorem bencode_roundtrip (x : W) (h : valid x = true) (rest : Bytes) :
+/-- MISSING for the full statement: strings that start with U+FEFF (see `msgpack_roundtrip_partial`) -/
+theorem bencode_roundtrip_partial (x : W) (h : valid x = true) (rest : Bytes) :
     decode (encode x ++ rest) = .ok (norm (value x), rest) := by
   unfold decode
   rw [(Proofs.C16.Bencode.main ((encode x ++ rest).length + 1)).1 x h (by simp; omega) rest]
@@ -200,16 +231,16 @@ theorem bencode_prefix_fails (x : W) (h : valid x = true) (k : Nat) (hk : k < (e
 
 theorem bencode_trailing (x : W) (h : valid x = true) (rest : Bytes) :
     ∃ v, decode (encode x) = .ok (v, []) ∧ decode (encode x ++ rest) = .ok (v, rest) := by
-  refine ⟨norm (value x), ?_, bencode_roundtrip x h rest⟩
-  simpa using bencode_roundtrip x h []
+  refine ⟨norm (value x), ?_, bencode_roundtrip_partial x h rest⟩
+  simpa using bencode_roundtrip_partial x h []
 
-theorem bencode_all_values (v : V) (h : inDomain v = true) : valid (canon v) = true ∧ value (canon v) = v :=
+theorem bencode_all_values_partial (v : V) (h : inDomain v = true) : valid (canon v) = true ∧ value (canon v) = v :=
   Proofs.C16.Bencode.canon_ok v h
 
-theorem bencode_roundtrip_value (v : V) (h : inDomain v = true) (rest : Bytes) :
+theorem bencode_roundtrip_value_partial (v : V) (h : inDomain v = true) (rest : Bytes) :
     decode (encode (canon v) ++ rest) = .ok (norm v, rest) := by
-  have ⟨h1, h2⟩ := bencode_all_values v h
-  rw [bencode_roundtrip _ h1 rest, h2]
+  have ⟨h1, h2⟩ := bencode_all_values_partial v h
+  rw [bencode_roundtrip_partial _ h1 rest, h2]
 
 /-! non-vacuity: `+`, `-0`, leading zeros, nested list/dictionary -/
 example : valid (.dict [(.str 2 [0x6b], .list [.int .plus 3 42, .int .minus 0 0, .int .minus 0 (2^63), .str 0 []])]) = true := by
